@@ -14,15 +14,18 @@
 EXTENDS Naturals, Sequences, FiniteSets, TLC
 
 CONSTANTS Users, Urls, MaxSteps,
-          CacheHead        \* deviation: HEAD is treated like GET by the cache (looked up and stored)
+          CacheHead,       \* deviation: HEAD is treated like GET by the cache (looked up and stored)
+          CacheFirst       \* deviation: the cache is consulted before the request is routed (a backend whose agent has gone
+                           \* quiet, or that was deleted, still "answers" from the cache instead of 404)
 
 Methods == {"GET", "HEAD", "POST"}
 VARIABLES cache,   \* [<<user, url>> -> id of the exchange whose response is kept] (partial)
           n,       \* exchanges so far
-          last     \* the last step: [method, user, url, reached, got, own]
-vars == <<cache, n, last>>
-NoStep == [method |-> "none", user |-> "none", url |-> "none", reached |-> TRUE, got |-> 0, own |-> 0, cc |-> FALSE]
-Init == cache = <<>> /\ n = 0 /\ last = NoStep
+          last,    \* the last step: [method, user, url, reached, got, own]
+          live     \* the backend the URL is routed to has an agent that polled within the last five minutes
+vars == <<cache, n, last, live>>
+NoStep == [method |-> "none", user |-> "none", url |-> "none", reached |-> TRUE, got |-> 0, own |-> 0, cc |-> FALSE, status |-> 0]
+Init == cache = <<>> /\ n = 0 /\ last = NoStep /\ live = TRUE
 
 Key(u, url) == <<u, url>>
 Has(u, url) == Key(u, url) \in DOMAIN cache
@@ -31,19 +34,25 @@ Looks(m) == m = "GET" \/ (CacheHead /\ m = "HEAD")
 
 \* one client exchange; cc = the backend's answer carries Cache-Control (then it is not kept)
 Step(m, u, url, cc) ==
-  /\ n < MaxSteps /\ n' = n + 1
-  /\ \/ /\ Looks(m) /\ Has(u, url)                       \* answered from the cache (memcache may also have lost it: below)
-        /\ last' = [method |-> m, user |-> u, url |-> url, reached |-> FALSE, got |-> cache[Key(u, url)], own |-> n + 1, cc |-> cc]
+  /\ n < MaxSteps /\ n' = n + 1 /\ UNCHANGED live
+  /\ \/ /\ (live \/ CacheFirst) /\ Looks(m) /\ Has(u, url)  \* answered from the cache (memcache may also have lost it: below)
+        /\ last' = [method |-> m, user |-> u, url |-> url, reached |-> FALSE, got |-> cache[Key(u, url)], own |-> n + 1, cc |-> cc, status |-> 200]
         /\ UNCHANGED cache
-     \/ /\ last' = [method |-> m, user |-> u, url |-> url, reached |-> TRUE, got |-> n + 1, own |-> n + 1, cc |-> cc]
+     \/ /\ live
+        /\ last' = [method |-> m, user |-> u, url |-> url, reached |-> TRUE, got |-> n + 1, own |-> n + 1, cc |-> cc, status |-> 200]
         /\ cache' = IF Looks(m) /\ ~cc THEN Put(u, url, n + 1) ELSE cache
-Next == \E m \in Methods, u \in Users, url \in Urls, cc \in BOOLEAN : Step(m, u, url, cc)
+     \/ /\ ~live                                           \* nothing routable: 404, whatever the cache holds
+        /\ last' = [method |-> m, user |-> u, url |-> url, reached |-> FALSE, got |-> 0, own |-> n + 1, cc |-> cc, status |-> 404]
+        /\ UNCHANGED cache
+GoesQuiet == live /\ live' = FALSE /\ UNCHANGED <<cache, n, last>>     \* the backend's agent stops polling (or the backend is deleted)
+Next == GoesQuiet \/ \E m \in Methods, u \in Users, url \in Urls, cc \in BOOLEAN : Step(m, u, url, cc)
 Spec == Init /\ [][Next]_vars
 
 \* the rule recorded exchanges are judged by (also used as the model's invariant): a response that was not produced
 \* for this request is one that a GET of the same user for the same URL was answered with before (what is kept is
 \* always the answer to a GET)
 StepOK(s, kept) ==
+  /\ s.status # 404
   /\ s.reached => s.got = s.own
   /\ ~s.reached => /\ s.method \in {"GET", "HEAD"}     \* (a HEAD answered with the header block kept for a GET is no harm; the code does not do it)
                    /\ Key(s.user, s.url) \in DOMAIN kept /\ s.got = kept[Key(s.user, s.url)]
@@ -56,5 +65,5 @@ NextH == /\ Next
                                  IF k = Key(last'.user, last'.url) THEN last'.own ELSE okCache[k]]
                          ELSE okCache
 SpecH == InitH /\ [][NextH]_<<vars, okCache>>
-OwnOrCachedGet == [][last' # last => StepOK(last', okCache)]_<<vars, okCache>>
+OwnOrCachedGet == [][last' # last => (IF live THEN StepOK(last', okCache) ELSE (last'.status = 404 /\ ~last'.reached))]_<<vars, okCache>>
 =============================================================================
